@@ -267,7 +267,7 @@ C = corr_index
 S = corr_stages
 PROPS = {
     "C01": {
-        "lean": "SymfcModel.Props.C01", "gen": ["PermTables", "Cutoff"],
+        "lean": "SymfcModel.Props.C01", "gen": ["PermTables", "Cutoff", "PipelineSkel"],
         "corr": [
             {"fn": C.corr_cell_index, "quick": {"n_cases": 30}, "thorough": {"n_cases": 200}},
             {"fn": C.corr_combinations, "quick": {"n_cases": 30}, "thorough": {"n_cases": 240}},
@@ -286,7 +286,7 @@ PROPS = {
         "trusted": [KERNELS["numpy"], KERNELS["float"]],
     },
     "C02": {
-        "lean": "SymfcModel.Props.C02", "gen": ["SumRule", "PermTables"],
+        "lean": "SymfcModel.Props.C02", "gen": ["SumRule", "PermTables", "SpgRepsSkel", "PipelineSkel"],
         "corr": [{"fn": S.corr_coset, "quick": {"n_cases": 36}, "thorough": {"n_cases": 300}},
                  {"fn": S.corr_spg_reps, "quick": {"n_cases": 12}, "thorough": {"n_cases": 90}},
                  {"fn": C.corr_cell_index, "quick": {"n_cases": 15}, "thorough": {"n_cases": 90}}],
@@ -303,7 +303,7 @@ PROPS = {
         "trusted": [KERNELS["eigh"], KERNELS["spglib"], KERNELS["float"]],
     },
     "C03": {
-        "lean": "SymfcModel.Props.C03", "gen": ["SumRule", "O1"],
+        "lean": "SymfcModel.Props.C03", "gen": ["SumRule", "O1", "PipelineSkel"],
         "corr": [{"fn": S.corr_sum_rule, "quick": {"n_cases": 36, "sizes": ((6, 6), (6, 6), (3, 3))},
                   "thorough": {"n_cases": 240, "sizes": ((8, 8), (6, 6), (4, 4))}}],
         "oracle": [{"name": "first_order_basis", "fn": o_basis_o1, "quick": {"n": 8}, "thorough": {"n": 40}, "search": {"n": 24}},
@@ -318,7 +318,7 @@ PROPS = {
         "trusted": [KERNELS["eigh"], KERNELS["float"]],
     },
     "C04": {
-        "lean": "SymfcModel.Props.C04", "gen": ["PermTables", "Cutoff"],
+        "lean": "SymfcModel.Props.C04", "gen": ["PermTables", "Cutoff", "PipelineSkel"],
         "corr": [{"fn": C.corr_perm_stage, "quick": {"n_cases": 36}, "thorough": {"n_cases": 300}},
                  {"fn": C.corr_combinations, "quick": {"n_cases": 18}, "thorough": {"n_cases": 120}}],
         "oracle": [{"name": "first_order_basis", "fn": o_basis_o1, "quick": {"n": 8}, "thorough": {"n": 40}, "search": {"n": 24}},
@@ -360,7 +360,7 @@ PROPS = {
         "trusted": [KERNELS["posv"], KERNELS["float"]],
     },
     "C07": {
-        "lean": "SymfcModel.Props.C07", "gen": ["Cutoff", "ApiCompute"],
+        "lean": "SymfcModel.Props.C07", "gen": ["Cutoff", "ApiCompute", "PipelineSkel"],
         "corr": [{"fn": C.corr_combinations, "quick": {"n_cases": 45}, "thorough": {"n_cases": 300}},
                  {"fn": C.corr_perm_stage, "quick": {"n_cases": 24}, "thorough": {"n_cases": 150}}],
         "oracle": [{"name": "cutoff", "fn": o_cutoff, "quick": {"n": 6}, "thorough": {"n": 24}, "search": {"n": 18}}],
@@ -371,7 +371,7 @@ PROPS = {
                     "the oracle compares distances with an exhaustive image search"],
     },
     "C08": {
-        "lean": "SymfcModel.Props.C08", "gen": ["PermTables"],
+        "lean": "SymfcModel.Props.C08", "gen": ["PermTables", "PipelineSkel"],
         "corr": [{"fn": C.corr_cell_index, "quick": {"n_cases": 45}, "thorough": {"n_cases": 300}}],
         "oracle": [{"name": "basis_compact", "fn": o_basis, "quick": {"n": 15, "which": ("compact",)},
                     "thorough": {"n": 36, "which": ("compact",), "min_nlp": 2}, "search": {"n": 24, "which": ("compact",)}},
@@ -379,7 +379,7 @@ PROPS = {
         "trusted": [KERNELS["float"]],
     },
     "C09": {
-        "lean": "SymfcModel.Props.C09", "gen": ["Eig"],
+        "lean": "SymfcModel.Props.C09", "gen": ["Eig", "PipelineSkel"],
         "corr": [{"fn": corr_eig.corr_eigsh_projector, "quick": {"n_cases": 30}, "thorough": {"n_cases": 300}},
                  {"fn": corr_eig.corr_sumrule_plan, "quick": {"n_cases": 20}, "thorough": {"n_cases": 200}}],
         "oracle": [{"name": "first_order_basis", "fn": o_basis_o1, "quick": {"n": 8}, "thorough": {"n": 40}, "search": {"n": 24}},
@@ -394,7 +394,7 @@ PROPS = {
         "trusted": [KERNELS["eigh"], KERNELS["float"]],
     },
     "C10": {
-        "lean": "SymfcModel.Props.C10", "gen": ["PermTables", "Cutoff"],
+        "lean": "SymfcModel.Props.C10", "gen": ["PermTables", "Cutoff", "SgPermSkel", "SpgRepsSkel"],
         "corr": [{"fn": C.corr_cell_index, "quick": {"n_cases": 9}, "thorough": {"n_cases": 60}},
                  {"fn": corr_relabel.corr_relabel, "quick": {"n_cases": 20}, "thorough": {"n_cases": 150}},
                  {"fn": C.corr_perm_stage, "quick": {"n_cases": 8}, "thorough": {"n_cases": 40}},
@@ -407,7 +407,7 @@ PROPS = {
                     "description independence of (trans_perms, operations, near) is tested metamorphically"],
     },
     "C11": {
-        "lean": "SymfcModel.Props.C11", "gen": ["PermTables", "Solver", "SumRule", "Eig"],
+        "lean": "SymfcModel.Props.C11", "gen": ["PermTables", "Solver", "SumRule", "Eig", "PipelineSkel"],
         "corr": [{"fn": C.corr_perm_stage, "quick": {"n_cases": 12, "force_order": None}, "thorough": {"n_cases": 150}},
                  {"fn": S.corr_sum_rule, "quick": {"n_cases": 24, "sizes": ((6, 6), (6, 6), (3, 3))}, "thorough": {"n_cases": 120}},
                  {"fn": S.corr_normal_eq, "quick": {"n_cases": 9}, "thorough": {"n_cases": 90}}],
@@ -416,7 +416,7 @@ PROPS = {
         "trusted": [KERNELS["eigh"], KERNELS["float"], "thread count / BLAS reduction order and log_level are not modelled"],
     },
     "C12": {
-        "lean": "SymfcModel.Props.C12", "gen": ["ApiOrders", "ApiDataset", "ApiSolve", "ApiCompute", "ApiAccess", "Solver", "SolverState", "Purity"],
+        "lean": "SymfcModel.Props.C12", "gen": ["ApiOrders", "ApiDataset", "ApiSolve", "ApiCompute", "ApiAccess", "Solver", "SolverState", "Purity", "PipelineSkel"],
         "corr": [{"fn": corr_api.corr_api, "quick": {"n_hist": 40}, "thorough": {"n_hist": 300, "hist_len": 9}}],
         "oracle": [{"name": "history", "fn": o_history, "quick": {"n": 8}, "thorough": {"n": 40}, "search": {"n": 24}},
                    {"name": "solver_object_reuse", "fn": o_solver_reuse, "quick": {"n": 6}, "thorough": {"n": 36}, "search": {"n": 18}},
@@ -432,7 +432,7 @@ PROPS = {
         "trusted": [KERNELS["posv"], KERNELS["float"]],
     },
     "C14": {
-        "lean": "SymfcModel.Props.C14", "gen": [],
+        "lean": "SymfcModel.Props.C14", "gen": ["SgPermSkel", "SpgRepsSkel"],
         "corr": [{"fn": C.corr_cell_index, "quick": {"n_cases": 45}, "thorough": {"n_cases": 300}},
                  {"fn": S.corr_coset, "quick": {"n_cases": 18}, "thorough": {"n_cases": 120}},
                  {"fn": corr_sgperm.corr_sg_perm, "quick": {"n_cases": 60}, "thorough": {"n_cases": 600}},
